@@ -322,7 +322,13 @@ impl Report {
         let mut violation_lines = vec![];
         // group unattributed failures by (oracle, tags) so one defect gives one line, smallest case first
         let mut groups: BTreeMap<String, Vec<Failure>> = BTreeMap::new();
-        for f in unattributed.iter().cloned() {
+        // cases the pool did not run any more (crash budget exhausted) are counted, not listed one by one
+        let not_run = unattributed.iter().filter(|f| f.observed.contains("NOT RUN:")).count();
+        if not_run > 0 {
+            eprintln!("  {not_run} further cases were not run: the crash budget of the run was exhausted (the search is not exhaustive)");
+            self.cap("crash budget exhausted: remaining cases not run");
+        }
+        for f in unattributed.iter().filter(|f| not_run == unattributed.len() || !f.observed.contains("NOT RUN:")).cloned() {
             let norm: String = f.observed.chars().take(80).map(|c| if c.is_ascii_digit() { 'N' } else { c }).collect();
             let key = format!("{}|{}|{}", f.oracle, f.tags.join(","), norm);
             groups.entry(key).or_default().push(f);
